@@ -204,6 +204,7 @@ pub fn check_tight(tape: &[u16], rc: &mut RCase) -> Result<(), Failure> {
             ins: vec![rgen::RIn { name: "source".into(), party: 0, many: false, min: vec![Term::AdaLit(2_000_000), Term::Fees], ref_id: None }],
             outs,
             collateral: None,
+            references: vec![],
             store: vec![rgen::SUtxo { id: 7, party: 0, lovelace: 1i128 << 36, token: 5000 }],
             n_parties: 3,
         });
@@ -228,6 +229,7 @@ pub fn check_tight(tape: &[u16], rc: &mut RCase) -> Result<(), Failure> {
             }],
             outs,
             collateral: None,
+            references: vec![],
             store: vec![rgen::SUtxo { id: 0, party: 2, lovelace: funding, token: 0 }],
             n_parties: 3,
         }
